@@ -218,6 +218,15 @@ impl WriterThreadPool {
             .wait_for(|write_offset| *write_offset >= full_append.write_offset)
             .await
             .map_err(|_| WriteError::NoThreadReply)?;
+        #[cfg(sierra_db_sierradb_verif)]
+        crate::verif::point(
+            "wt.ack",
+            &[
+                ("bucket", bucket_id as u64),
+                ("off", full_append.write_offset),
+                ("first_seq", full_append.append.first_partition_sequence),
+            ],
+        );
 
         Ok(full_append.append)
     }
@@ -499,6 +508,18 @@ impl Worker {
             .has_recent_activity
             .store(true, Ordering::Relaxed);
 
+        #[cfg(sierra_db_sierradb_verif)]
+        crate::verif::point(
+            "wt.reply",
+            &[
+                ("bucket", bucket_id as u64),
+                ("seg", writer_set.bucket_segment_id.segment_id as u64),
+                ("off", writer_set.writer.write_offset()),
+                ("ok", res.is_ok() as u64),
+                ("first_seq", res.as_ref().map(|r| r.first_partition_sequence).unwrap_or(0)),
+                ("start", write_offset),
+            ],
+        );
         let _ = reply_tx.send(res.map(|append| FullAppendResult {
             append,
             write_offset: writer_set.writer.write_offset(),
@@ -595,6 +616,16 @@ impl WriterSet {
             let (offset, len) = self.writer.append_event(req.confirmation_count, &append)?;
             offsets.push(offset);
             self.bytes_since_sync += len;
+            #[cfg(sierra_db_sierradb_verif)]
+            crate::verif::point(
+                "wt.event",
+                &[
+                    ("bucket", self.bucket_segment_id.bucket_id as u64),
+                    ("seg", self.bucket_segment_id.segment_id as u64),
+                    ("off", offset),
+                    ("seq", partition_sequence),
+                ],
+            );
             // We need to guarantee:
             // - partition key is the same as previous event partition keys in the stream
             // - partition sequence doesn't reach u64::MAX
@@ -616,6 +647,14 @@ impl WriterSet {
                 .duration_since(UNIX_EPOCH)
                 .map_err(|_| WriteError::BadSystemTime)?
                 .as_nanos() as u64;
+            #[cfg(sierra_db_sierradb_verif)]
+            crate::verif::point(
+                "wt.before_commit",
+                &[
+                    ("bucket", self.bucket_segment_id.bucket_id as u64),
+                    ("seg", self.bucket_segment_id.segment_id as u64),
+                ],
+            );
             let (_, len) = self.writer.append_commit(
                 req.confirmation_count,
                 &RawCommit {
@@ -676,6 +715,15 @@ impl WriterSet {
                 panic!("failed to insert stream index: {err}");
             }
         }
+        #[cfg(sierra_db_sierradb_verif)]
+        crate::verif::point(
+            "wt.published",
+            &[
+                ("bucket", self.bucket_segment_id.bucket_id as u64),
+                ("seg", self.bucket_segment_id.segment_id as u64),
+                ("off", write_offset),
+            ],
+        );
         self.sync_tx.send_replace(write_offset);
 
         Ok(())
@@ -700,6 +748,14 @@ impl WriterSet {
 
         // Open new segment
         let old_bucket_segment_id = self.bucket_segment_id;
+        #[cfg(sierra_db_sierradb_verif)]
+        crate::verif::point(
+            "wt.roll.synced",
+            &[
+                ("bucket", old_bucket_segment_id.bucket_id as u64),
+                ("seg", old_bucket_segment_id.segment_id as u64),
+            ],
+        );
         self.bucket_segment_id = self.bucket_segment_id.increment_segment_id();
 
         SegmentKind::ensure_segment_dir(&self.dir, self.bucket_segment_id)?;
@@ -718,6 +774,14 @@ impl WriterSet {
             )?,
         );
 
+        #[cfg(sierra_db_sierradb_verif)]
+        crate::verif::point(
+            "wt.roll.created",
+            &[
+                ("bucket", self.bucket_segment_id.bucket_id as u64),
+                ("seg", self.bucket_segment_id.segment_id as u64),
+            ],
+        );
         let event_index = OpenEventIndex::create(
             self.bucket_segment_id,
             SegmentKind::EventIndex.get_path(&self.dir, self.bucket_segment_id),
@@ -779,6 +843,14 @@ impl WriterSet {
             )
         };
 
+        #[cfg(sierra_db_sierradb_verif)]
+        crate::verif::point(
+            "wt.roll.swapped",
+            &[
+                ("bucket", self.bucket_segment_id.bucket_id as u64),
+                ("seg", self.bucket_segment_id.segment_id as u64),
+            ],
+        );
         self.reader_pool.add_bucket_segment(
             old_bucket_segment_id,
             &old_reader,
@@ -786,8 +858,24 @@ impl WriterSet {
             Some(&closed_partition_index),
             Some(&closed_stream_index),
         );
+        #[cfg(sierra_db_sierradb_verif)]
+        crate::verif::point(
+            "wt.roll.old_installed",
+            &[
+                ("bucket", self.bucket_segment_id.bucket_id as u64),
+                ("seg", self.bucket_segment_id.segment_id as u64),
+            ],
+        );
         self.reader_pool
             .add_bucket_segment(self.bucket_segment_id, &self.reader, None, None, None);
+        #[cfg(sierra_db_sierradb_verif)]
+        crate::verif::point(
+            "wt.roll.new_installed",
+            &[
+                ("bucket", self.bucket_segment_id.bucket_id as u64),
+                ("seg", self.bucket_segment_id.segment_id as u64),
+            ],
+        );
 
         Ok(())
     }
